@@ -96,6 +96,22 @@ func checkHybridAnswer(rep reporter, r *ev.Run, h *hybridModel, q hybridQuery, g
 	}
 	if ambiguous {
 		r.Count("probes:ambiguous-tie(soundness only)", 1)
+		// rank ties inside a modality leave the RRF scores ambiguous, but only between the best and the worst legal
+		// rank of each document: two tied documents cannot BOTH get the better position, nor can a document behind a
+		// tie move up
+		if h.lastOnlyRankTies && q.Fusion == comet.ReciprocalRankFusion && q.K > len(h.docs) && err == nil {
+			vt := func(s float64) float64 { return 2 * distTol(h.metric, h.dim, s) }
+			tt := func(s float64) float64 { return 1e-5*math.Abs(s) + 1e-9 }
+			for _, g := range got {
+				vlo, vhi := rrfRange(h.lastV, g.ID, true, q.RRFK, vt)
+				tlo, thi := rrfRange(h.lastT, g.ID, false, q.RRFK, tt)
+				if lo, hi := vlo+tlo, vhi+thi; g.Score < lo*(1-1e-9)-1e-12 || g.Score > hi*(1+1e-9)+1e-12 {
+					rep("hybrid.score", fmt.Sprintf("[%s]: id %d has reciprocal-rank score %.12g, outside what any legal ordering of the tied candidates gives: [%.12g, %.12g]", q, g.ID, g.Score, lo, hi))
+					break
+				}
+			}
+			r.Count("probes:rrf-rank-ties(score within legal rank range)", 1)
+		}
 		return
 	}
 	tolOf := func(s float64) float64 {
